@@ -78,3 +78,50 @@ void h_C16_refill(void)
 	}
 	SENTINEL("refill");
 }
+
+/* ---- send_evrrul: what is written for a task whose rules have been consumed
+ * up to some point: DTSTART = the earliest occurrence not yet consumed over
+ * the sibling rules, COUNT = what the rule still has to deliver. */
+static echs_instant_t g_sent_from;
+static size_t g_sent_ccnt;
+static unsigned g_nsend_ev, g_nsend_rrul;
+static void send_ev(int whither, echs_event_t e, echs_tzob_t z)
+__CPROVER_assigns(g_sent_from, g_nsend_ev)
+__CPROVER_ensures(g_sent_from.u == e.from.u && g_nsend_ev == __CPROVER_old(g_nsend_ev) + 1U);
+static void send_rrul(int whither, rrulsp_t rr, size_t ccnt)
+__CPROVER_assigns(g_sent_ccnt, g_nsend_rrul)
+__CPROVER_ensures(g_sent_ccnt == ccnt && g_nsend_rrul == __CPROVER_old(g_nsend_rrul) + 1U);
+
+static struct evrrul_s g_rules[2];
+
+void h_C05_send_evrrul(void)
+{
+	IN_RANGE(size_t, rdi0, 0, 64); IN_RANGE(size_t, ncch0, 0, 63);
+	IN_RANGE(size_t, rdi1, 0, 64); IN_RANGE(size_t, ncch1, 0, 63);
+	IN(uint64_t, head0); IN(uint64_t, head1);	/* cch[rdi] of each rule */
+	IN(uint64_t, seed0); IN(uint64_t, seed1);	/* held-back seed (or 0 at the end) */
+	ASSUME(rdi0 <= ncch0 && rdi1 <= ncch1);
+	ASSUME(head0 != 0ULL && head1 != 0ULL && head0 != ~0ULL && head1 != ~0ULL && seed0 != ~0ULL && seed1 != ~0ULL);
+	/* refill holds back the LAST occurrence of a batch as the seed: it is not earlier than anything cached */
+	ASSUME(seed0 == 0ULL || !echs_instant_lt_p((echs_instant_t){.u = seed0}, (echs_instant_t){.u = head0}));
+	ASSUME(seed1 == 0ULL || !echs_instant_lt_p((echs_instant_t){.u = seed1}, (echs_instant_t){.u = head1}));
+	memset(g_rules, 0, sizeof(g_rules));
+	g_rules[0].seq = 0U, g_rules[0].ref = 2U;
+	g_rules[1].seq = 1U, g_rules[1].ref = 2U;
+	g_rules[0].rdi = rdi0, g_rules[0].ncch = ncch0, g_rules[0].e.from.u = seed0;
+	g_rules[1].rdi = rdi1, g_rules[1].ncch = ncch1, g_rules[1].e.from.u = seed1;
+	if (rdi0 < ncch0) { g_rules[0].cch[rdi0].u = head0; }
+	if (rdi1 < ncch1) { g_rules[1].cch[rdi1].u = head1; }
+	g_nsend_ev = g_nsend_rrul = 0U;
+	send_evrrul(5, (echs_const_evstrm_t)&g_rules[0]);
+	/* next unconsumed occurrence of each rule: the cache head, else the seed */
+	echs_instant_t n0 = {.u = rdi0 < ncch0 ? head0 : seed0}, n1 = {.u = rdi1 < ncch1 ? head1 : seed1};
+	ASSERT(g_nsend_ev == 1U && g_nsend_rrul == 1U, "the first rule of a task writes the event once and its rule once");
+	ASSERT(g_sent_ccnt == ncch0 - rdi0, "COUNT is written as what the rule has left: its remaining count plus the cached occurrences not yet consumed");
+	if (n0.u && n1.u) {
+		echs_instant_t want = echs_instant_lt_p(n1, n0) ? n1 : n0;
+		ASSERT(g_sent_from.u == want.u, "DTSTART is written as the earliest occurrence not yet consumed over all rules of the task");
+		if (rdi0 != rdi1 && rdi1 < ncch1 && echs_instant_lt_p(n1, n0)) { SENTINEL("send_evrrul second rule is next"); }
+	}
+	SENTINEL("send_evrrul");
+}
